@@ -119,6 +119,13 @@ _inp("C26", "exhaustive enumeration of every buffer capacity 0..len+16 x argumen
   "21 (quick) / 106 (thorough) combinations of query bytes, limit, cursor, aggregations, aggs_len (every proper prefix length) and null flags x every buf_cap from 0 to the full response length + 16, in 1-3 worlds: canaries intact, no fault, ret = min(len, buf_cap-1), bytes [0,ret) are a prefix of the large-buffer response, byte ret is NUL, null / invalid arguments yield 0; a fault in the child is reported with the exact arguments.",
   "Trusted: guard-page / canary harness; contract as written in searchlite-ffi's Safety comments and header.")
 
+_inp("C14", "exhaustive differential enumeration: worlds (document shapes x upserts x layouts with >= 2 segments x deletions) observed through a query/filter battery before and after the real compaction",
+  "Every sequence of 2-3 (quick) / 2-4 (thorough) document shapes (text single / multi / empty, null nullable text, keyword case variants, multi-valued numbers, nested array / single object / null / empty array with null and unstored properties) x {distinct ids, cross-commit upsert} x every layout with at least two segments x {no deletion, one deletion}: match_all+stored and 60 query / filter observations must be identical before and after Index::compact; the manifest must hold exactly one segment without tombstones whose doc_count equals the live count; with an indexed field that is not stored compaction must refuse and leave manifest and observations unchanged.",
+  "Trusted: nothing beyond the search path itself (pure before/after comparison); scores are not compared because segment statistics legitimately change.")
+_inp("C29", "exhaustive enumeration of small vector worlds x vector-only / hybrid / multi-clause requests against a brute-force similarity oracle (vectors feature build)",
+  "Vector field of dimension 1-3 (quick: 2) x {Cosine, L2} x every sequence of <= 3 (thorough: multisets of 4) document shapes incl. zero vector and missing vector x every segment layout x optional deletion; vector-only requests over (k, limit) x {plain, filter, vector_filter, boost}, hybrid requests (object and legacy tuple) with alpha 0 / 0.5 / 1, two-clause should, wrong-dimension query and document: hits only live documents with a vector passing the filters, vector_score = exact similarity x boost, score = alpha*bm25 + (1-alpha)*vector_score, first min(k, limit) hits = exact nearest neighbours.",
+  "Trusted: brute-force oracle; every segment holds < 16 vectors so HNSW must be exact; multi-clause blend and hybrid hits without a vector are not judged (docs silent).")
+
 NOT_YET = "check not built yet in this session (see DESIGN.md §3 for the planned engine); no verdict is claimed"
 NOT_APPLICABLE = {}
 
